@@ -402,41 +402,46 @@ def run(ctx):
     try:
         kw = ctx.anchor_one("R13.8", "keyboard worker coroutine",
                             [c for c in facts.children(ctx.anchor_fn("R13.8", "watchexec::sources::keyboard::worker")) if c.kind == "coroutine"])
-        ms = [m for m in thir.find(thir.root(kw), "match") if m["src"] == "Normal" and m["sty"].startswith("(bool, &core::option::Option<tokio::sync::oneshot::Sender")]
-        if len(ms) != 1:
-            ctx.violation("R13.8", "floor:keyboard-match", "the keyboard worker no longer matches on (enabled, close handle)", kw.loc(kw.line))
-        else:
-            m = ms[0]
-            kloops = [n for n in thir.find(thir.root(kw), "loop") if not n.get("x")]
-            firsts = set()
-            for q in (pathx.Enum(interesting=interesting).paths(kloops[0]["e"]) if len(kloops) == 1 else []):
-                c0 = [e for e in q.ev if e[0] in ("call", "await", "arm", "branch", "assign")][:2]
-                firsts.add(tuple((e[0], tuple(strip_generics(e[1]).split("::")[-2:]) if e[0] == "call" else None) for e in c0))
-            ctx.require(firsts == {(("call", ("ConfigWatched", "next")), ("await", None))}, "R13.8", "keyboard-await-first",
-                        "every round of the keyboard worker first awaits the configuration-change subscription", kw.loc(kw.line), detail=str(firsts)[:200],
-                        fail="the keyboard worker loops without awaiting ConfigWatched::next: it spins, starving the runtime thread it runs on")
-            sc = pathx.desc(m["e"]).replace("^", "")
-            ctx.require(sc == "(Changeable::get(config.keyboard_events), send_close)", "R13.8", "keyboard-scrutinee", "the decision reads config.keyboard_events and the close handle",
-                        kw.loc(m["l"]), detail=sc)
-            OPT = "core::option::Option"
-            cases = {"enable": (True, ("v", OPT, "None", {})), "disable": (False, ("v", OPT, "Some", {"0": thir.ANY})),
-                     "keep-on": (True, ("v", OPT, "Some", {"0": thir.ANY})), "keep-off": (False, ("v", OPT, "None", {}))}
-            for name, (en, st) in cases.items():
-                i = thir.first_arm(m, ("t", [("b", en), st]))
-                if i is None:
-                    ctx.incomplete("R13.8", "keyboard:" + name, "undetermined arm", kw.loc(m["l"]))
-                    continue
-                body = m["arms"][i]["b"]
-                calls = [strip_generics(c).split("::")[-2] + "::" + strip_generics(c).split("::")[-1] for c, _ in thir.calls_in(body) if not pathx.is_tracing(_)]
-                assigns = [(pathx.desc(a["a"]).replace("^", ""), pathx.desc(a["b"])) for a in thir.find(body, "assign")]
-                if name == "enable":
-                    ok = "spawn::spawn" in calls and "keyboard::watch_stdin" in calls and ("send_close", "Some{0: close_s}") in assigns
-                elif name == "disable":
-                    ok = "Option::take" in calls and "Sender::send" in calls and "spawn::spawn" not in calls
-                else:
-                    ok = not calls and not assigns
-                ctx.require(ok, "R13.8", "keyboard:" + name, "keyboard events %s" % name, kw.loc(m["arms"][i]["l"]), detail="%s %s" % (calls, assigns),
-                            fail="keyboard source, case %s: does %s %s" % (name, calls, assigns))
+        rk = thir.root(kw)
+        kloops = [n for n in thir.find(rk, "loop") if not n.get("x")]
+        firsts = set()
+        for q in (pathx.Enum(interesting=interesting).paths(kloops[0]["e"]) if len(kloops) == 1 else []):
+            c0 = [e for e in q.ev if e[0] in ("call", "await", "arm", "branch", "assign")][:2]
+            firsts.add(tuple((e[0], tuple(strip_generics(e[1]).split("::")[-2:]) if e[0] == "call" else None) for e in c0))
+        ctx.require(firsts == {(("call", ("ConfigWatched", "next")), ("await", None))}, "R13.8", "keyboard-await-first",
+                    "every round of the keyboard worker first awaits the configuration-change subscription", kw.loc(kw.line), detail=str(firsts)[:200],
+                    fail="the keyboard worker loops without awaiting ConfigWatched::next: it spins, starving the runtime thread it runs on")
+        # decision table of one round over (enabled, close handle held), whatever shape the decision is written in: the calls the round makes
+        # under each combination (match on the pair, if-chain, if-let on take() ...)
+        OPT = "core::option::Option"
+        EN = "Changeable::get(config.keyboard_events)"
+        cases = {"enable": (True, ("v", OPT, "None", {})), "disable": (False, ("v", OPT, "Some", {"0": thir.ANY})),
+                 "keep-on": (True, ("v", OPT, "Some", {"0": thir.ANY})), "keep-off": (False, ("v", OPT, "None", {}))}
+        body_k = kloops[0]["e"] if len(kloops) == 1 else rk
+        reads = [pathx.desc(n).replace("^", "") for c, n in thir.calls_in(body_k) if strip_generics(c).endswith("Changeable::get")]
+        ctx.require(reads == [EN], "R13.8", "keyboard-scrutinee", "the decision reads config.keyboard_events (once per round) and the close handle", kw.loc(kw.line), detail=str(reads))
+        keeps = [(pathx.desc(a_["a"]).replace("^", ""), pathx.desc(a_["b"])) for a_ in thir.find(body_k, "assign")]
+        for name, (en_, st) in cases.items():
+            held = st[2] == "Some"
+            descs = {EN: en_, "Option::is_none(send_close)": not held, "Option::is_some(send_close)": held}
+            vals = {"send_close": st, "Option::take(send_close)": st, "(%s, send_close)" % EN: ("t", [("b", en_), st])}
+            with pathx.reading_through(body_k):
+                evs_, und = pathx.calls_under(body_k, descs, vals)
+            und = [u for u in und if "send_close" in u or "keyboard_events" in u or "enabled" in u]
+            if und:
+                ctx.incomplete("R13.8", "keyboard:" + name, "undetermined arm", kw.loc(kw.line), detail=str(und)[:200])
+                continue
+            calls = [strip_generics(thir.peel(n["fn"]).get("def") or "?").split("::")[-2] + "::" + strip_generics(thir.peel(n["fn"]).get("def") or "?").split("::")[-1]
+                     for n in evs_ if n.get("k") == "call" and isinstance(thir.peel(n["fn"]), dict) and thir.peel(n["fn"]).get("k") == "fn"]
+            eff = [c for c in calls if c in ("spawn::spawn", "keyboard::watch_stdin", "Sender::send", "Option::take")]
+            if name == "enable":
+                ok = "spawn::spawn" in eff and "keyboard::watch_stdin" in eff and "Sender::send" not in eff and ("send_close", "Some{0: close_s}") in keeps
+            elif name == "disable":
+                ok = "Option::take" in eff and "Sender::send" in eff and "spawn::spawn" not in eff
+            else:
+                ok = not [c for c in eff if c != "Option::take" or name == "keep-on"]
+            ctx.require(ok, "R13.8", "keyboard:" + name, "keyboard events %s" % name, kw.loc(kw.line), detail="%s %s" % (eff, keeps),
+                        fail="keyboard source, case %s: does %s %s" % (name, eff, keeps))
     except Skip:
         pass
 
